@@ -489,6 +489,9 @@ type answer struct {
 	panicV interface{}
 	stack  string
 	req    *http.Request
+	// what was sent, recorded before the handler saw it (the handler gets the same *http.Request)
+	sentURL, sentURI, sentHost string
+	sentHeader                 http.Header
 }
 
 func send(b *built, rq *Rq) (a answer, ok bool) {
@@ -513,6 +516,7 @@ func send(b *built, rq *Rq) (a answer, ok bool) {
 	}
 	rw := httptest.NewRecorder()
 	a.req = req
+	a.sentURL, a.sentURI, a.sentHost, a.sentHeader = req.URL.String(), req.RequestURI, req.Host, req.Header.Clone()
 	a.panicV, a.stack = mon.Catch(func() { b.h.ServeHTTP(rw, req) })
 	res := rw.Result()
 	a.status = res.StatusCode
@@ -702,14 +706,14 @@ func runCase(m *mon.M, c *Case) {
 			if n.method != rq.Method {
 				diffs = append(diffs, fmt.Sprintf("method %q", n.method))
 			}
-			if want := a.req.URL.String(); n.url != want {
+			if want := a.sentURL; n.url != want {
 				diffs = append(diffs, fmt.Sprintf("url %q (sent %q)", n.url, want))
 			}
-			if n.reqURI != a.req.RequestURI || n.host != a.req.Host {
+			if n.reqURI != a.sentURI || n.host != a.sentHost {
 				diffs = append(diffs, fmt.Sprintf("requestURI/host %q %q", n.reqURI, n.host))
 			}
-			if fmt.Sprint(n.header) != fmt.Sprint(a.req.Header) {
-				diffs = append(diffs, fmt.Sprintf("header %v (sent %v)", n.header, a.req.Header))
+			if fmt.Sprint(n.header) != fmt.Sprint(a.sentHeader) {
+				diffs = append(diffs, fmt.Sprintf("header %v (sent %v)", n.header, a.sentHeader))
 			}
 			if n.body != rq.Body {
 				diffs = append(diffs, fmt.Sprintf("body %q (sent %q)", n.body, rq.Body))
